@@ -27,6 +27,10 @@ RULE = (
     "an immediate second call must return None and issue no mutating FS call. Non-trivial and distinct = distinct "
     "histories after which the cache file existed and differed from the workspace at some observation."
 )
+RULE += (
+    " " + 'Added later: state point re-assignment onto itself; out-of-step time stamps (skew); bulk workspaces of 2001+ jobs; every mutating step of update_cache failing once with an I/O error (return => exact file); jobs initialised through another live session; the acting session observed like the observer.'
+    " In every third case DEBUG logging is effective for the package."
+)
 ASSUMPTIONS = [
     "The workspace is uncorrupted (corruption is C09's subject).",
     "Open-by-id is only checked for ids of existing jobs (a stale cache may legitimately resolve removed ids).",
